@@ -173,6 +173,14 @@ func genFail(r *vlib.R, emit func(string)) {
 	emit(fmt.Sprintf("fail classify %s %s %s %s %s", vlib.Pick(r, failCtxs), vlib.B(r.Chance(1, 5)), vlib.Pick(r, failModes), vlib.Pick(r, failLatchs), vlib.Pick(r, failMarks)))
 }
 
+// wirePfx: a third of the pipeline queries arrive as wire bytes (listener strict path) instead of a decoded message
+func wirePfx(r *vlib.R) string {
+	if r.Chance(1, 3) {
+		return "w:"
+	}
+	return ""
+}
+
 // forwarder chains use a fresh id each time: the upstream's answers are cached across pipes only by
 // name, and a cold cache is what the model of `forwardOps` assumes
 var fwdChainID = 1000
@@ -191,7 +199,7 @@ func genPipeCase(r *vlib.R, emit func(string), dflt string) int {
 			if length < 1 || length > 9 {
 				length = r.Range(1, 5)
 			}
-			emit(fmt.Sprintf("pipe chain %d %d %s f 10.%d.0.%d:40000", fwdChainID, length, vlib.B(r.Chance(2, 3)), r.Intn(200), 1+r.Intn(200)))
+			emit(fmt.Sprintf("pipe chain %d %d %s f %s10.%d.0.%d:40000", fwdChainID, length, vlib.B(r.Chance(2, 3)), wirePfx(r), r.Intn(200), 1+r.Intn(200)))
 			fwdChainID++
 		}
 		return n + 1
@@ -223,7 +231,7 @@ func genPipeCase(r *vlib.R, emit func(string), dflt string) int {
 				emit(fmt.Sprintf("pipe chain %d %d t t 10.9.0.9:40000", chainID, length+r.Intn(2)))
 				i++
 			}
-			emit(fmt.Sprintf("pipe chain %d %d %s f 10.%d.0.%d:40000", chainID, length, vlib.B(edns), r.Intn(200), 1+r.Intn(200)))
+			emit(fmt.Sprintf("pipe chain %d %d %s f %s10.%d.0.%d:40000", chainID, length, vlib.B(edns), wirePfx(r), r.Intn(200), 1+r.Intn(200)))
 			continue
 		}
 		kind := r.Intn(7) // 0..6 (7 = concurrent crypto has no counting entry point)
@@ -246,10 +254,10 @@ func genPipeCase(r *vlib.R, emit func(string), dflt string) int {
 		}
 		if !fo && r.Chance(1, 3) {
 			// the resolver answers with a bare alias; the budget runs out (or not) inside the cache's own chase
-			emit(fmt.Sprintf("pipe alias %d %s 10.%d.0.%d:40000 %d %d", r.Range(1, 3), vlib.B(r.Chance(2, 3)), r.Intn(200), 1+r.Intn(200), kind, nd))
+			emit(fmt.Sprintf("pipe alias %d %s %s10.%d.0.%d:40000 %d %d", r.Range(1, 3), vlib.B(r.Chance(2, 3)), wirePfx(r), r.Intn(200), 1+r.Intn(200), kind, nd))
 			continue
 		}
-		emit(fmt.Sprintf("pipe query %d %s %s 10.%d.0.%d:40000 %d %d", r.Range(1, 3), vlib.B(r.Chance(2, 3)), vlib.B(r.Chance(1, 3)), r.Intn(200), 1+r.Intn(200), kind, nd))
+		emit(fmt.Sprintf("pipe query %d %s %s %s10.%d.0.%d:40000 %d %d", r.Range(1, 3), vlib.B(r.Chance(2, 3)), vlib.B(r.Chance(1, 3)), wirePfx(r), r.Intn(200), 1+r.Intn(200), kind, nd))
 	}
 	return n + 1
 }
@@ -358,11 +366,36 @@ func sizeFor(r *vlib.R, fam string, big bool) int {
 		return r.Range(1, 14)
 	case "updown":
 		return r.Range(3, 9)
+	case "refresh":
+		return r.Range(2, 12)
 	}
 	return 3
 }
 
+// genRefreshCase: a delegation whose servers are all unreachable fails four times under a generous
+// ledger (ErrorCount 1..4, the virtual clock moved past failure back-off and address TTLs in between),
+// the world is repaired, and the fifth lookup — under the budget being tested — trips the
+// nameserver-address refresh (Resolver.checkHosts): one address lookup per nameserver name.
+func genRefreshCase(r *vlib.R, emit func(string), p l3Plan) int {
+	hdr := fmt.Sprintf("l3 new %s %d %d %s %d %d %d %d %d", p.fam, p.n, p.v, p.mode, p.out, p.in, p.sig, p.qmin, p.maxdepth)
+	if p.opts != "" {
+		hdr += " " + p.opts
+	}
+	emit(hdr)
+	for i := 0; i < 4; i++ {
+		emit("l3 warm")
+		emit("l3 advance 400")
+	}
+	emit("l3 heal")
+	emit(fmt.Sprintf("l3 query %s f t", vlib.B(r.Chance(3, 4))))
+	emit(fmt.Sprintf("l3 again %d", r.Intn(200)))
+	return 12
+}
+
 func genL3Case(r *vlib.R, emit func(string), p l3Plan) int {
+	if p.fam == "refresh" {
+		return genRefreshCase(r, emit, p)
+	}
 	hdr := fmt.Sprintf("l3 new %s %d %d %s %d %d %d %d %d", p.fam, p.n, p.v, p.mode, p.out, p.in, p.sig, p.qmin, p.maxdepth)
 	if p.opts != "" {
 		hdr += " " + p.opts
@@ -422,6 +455,25 @@ func planL3(r *vlib.R, fam string, v int, mode string, qmin int) l3Plan {
 	}
 	if fam == "deep" && r.Chance(1, 3) {
 		p.maxdepth = r.Range(3, 10)
+	}
+	if fam == "refresh" {
+		// the address refresh is what is metered: small sub-query / transport budgets, or defaults
+		if mode == "enforce" {
+			switch r.Intn(3) {
+			case 0:
+				p.out, p.in = 0, r.Range(1, 3)
+				if r.Chance(1, 2) {
+					// more nameserver names than the refresh runs at once (10): the first batch is admitted and
+					// finishes before the rest is refused
+					p.n, p.in = r.Range(11, 12), r.Range(10, 11)
+				}
+			case 1:
+				p.out, p.in = r.Range(2, 6), 0
+			default:
+				p.out, p.in = 0, 0
+			}
+		}
+		return p
 	}
 	// chain shapes beyond the default one: a signed hierarchy (chain-of-trust sub-lookups per label),
 	// a pipeline without the cache (store-less resolver), the failover middleware with a fallback server
@@ -498,6 +550,13 @@ func gen(r *vlib.R, n int, tier string, emit func(string)) {
 		{"l3 new manysig 6 1 shadow 0 0 2 5 30", "l3 query t t t"},
 		{"l3 new manysig 8 2 enforce 0 0 1000 0 30", "l3 query t t t", "l3 again 11"},
 		{"l3 new updown 7 0 enforce 6 0 0 5 30", "l3 query t f t"},
+		{"l3 new refresh 6 0 enforce 0 2 0 0 30", "l3 warm", "l3 advance 400", "l3 warm", "l3 advance 400", "l3 warm", "l3 advance 400", "l3 warm", "l3 advance 400", "l3 heal", "l3 query t f t", "l3 again 31"},
+		{"l3 new refresh 3 0 enforce 0 1 0 5 30", "l3 warm", "l3 advance 400", "l3 warm", "l3 advance 400", "l3 warm", "l3 advance 400", "l3 warm", "l3 advance 400", "l3 heal", "l3 query t f t"},
+		{"l3 new refresh 2 0 enforce 0 1 0 0 30", "l3 warm", "l3 advance 400", "l3 warm", "l3 advance 400", "l3 warm", "l3 advance 400", "l3 warm", "l3 advance 400", "l3 heal", "l3 query f f t"},
+		{"l3 new refresh 8 1 enforce 5 0 0 0 30", "l3 warm", "l3 advance 400", "l3 warm", "l3 advance 400", "l3 warm", "l3 advance 400", "l3 warm", "l3 advance 400", "l3 heal", "l3 query t f t"},
+		{"l3 new refresh 12 0 enforce 0 10 0 0 30", "l3 warm", "l3 advance 400", "l3 warm", "l3 advance 400", "l3 warm", "l3 advance 400", "l3 warm", "l3 advance 400", "l3 heal", "l3 query t f t"},
+		{"l3 new refresh 12 1 enforce 0 10 0 5 30", "l3 warm", "l3 advance 400", "l3 warm", "l3 advance 400", "l3 warm", "l3 advance 400", "l3 warm", "l3 advance 400", "l3 heal", "l3 query f f t"},
+		{"l3 new refresh 4 0 shadow 0 1 0 0 30", "l3 warm", "l3 advance 400", "l3 warm", "l3 advance 400", "l3 warm", "l3 advance 400", "l3 warm", "l3 advance 400", "l3 heal", "l3 query t f t"},
 		{"l3 new lame 3 5 enforce 3 0 0 0 30", "l3 query t f t", "l3 again 21"},
 		{"l3 new lame 4 5 enforce 3 0 0 0 30", "l3 query t f f", "l3 again 22"},
 		{"l3 new lame 2 5 enforce 3 0 0 5 30", "l3 query t f t", "l3 again 23"},
